@@ -69,6 +69,23 @@ PROPS = {
         "level_note": "Trusted: kernel, generated telnet constants, extraction, harness TCP peer. Subnegotiation (IAC SB ... IAC SE) is outside "
                       "the property's grammar and the model. The timeout that ends the negotiation phase is runtime behaviour (observed, not proved).",
     },
+    "C19": {
+        "n": {"quick": 300, "thorough": 8000},
+        "cone": ["Bytes", "Generated", "Options", "OptionsRun", "OptionsLemmas"],
+        "rule": "random subsets + permutations + duplicates of all 45 option constructors with valid and invalid values through generic / network / "
+                "NETCONF NewDriver and through platform.NewPlatform with a generated YAML definition carrying an options block (every option name "
+                "the platform package recognises, values of the documented YAML type; plus ill-typed values as a separate stream) combined with user "
+                "options for the same settings; compared with the model: canonical dump of 43 public settings (regexes by source, funcs/loggers by "
+                "count, durations in ns), error class, panic; non-trivial = more than one option",
+        "level_text": "Theorems C19_* (22) over the model of the option closures and the constructors' application passes hold for ALL option lists: "
+                      "build is one fold in list order per object, last-wins for overwrite settings, additive settings accumulate, frame (unnamed "
+                      "settings keep defaults), adjacent-swap permutation, invalid value rejected at any position, ignored options raise no error, "
+                      "user options override platform options, every recognised platform option with a well-typed value takes effect without panic. "
+                      "The inventory of constructors/platform option names is regenerated from the source and checked against the model "
+                      "(check_inventory), so an unmodelled option breaks the tie. Tied to the code by dumping the real drivers' settings.",
+        "level_note": "Derived settings are modelled as derived (prompt pattern under network/NETCONF is overridden by the constructor, as the code "
+                      "documents). Trusted: kernel, generated inventories/defaults, extraction, harness dump.",
+    },
     "C20": {
         "n": {"quick": 150, "thorough": 1500},
         "race": True,
@@ -120,6 +137,41 @@ PROPS = {
                       "C01's phase lemma and is not yet composed with it mechanically. Hypotheses: prompts identify levels uniquely, sibling commands "
                       "distinct, no level named by the empty string (found by the proof).",
         "assumptions": ["user command lines do not themselves change the device mode (history clause)"],
+    },
+    "C05": {
+        "n": {"quick": 220, "thorough": 6000},
+        "compare": "member",
+        "cone": ["Bytes", "Regex", "Generated", "Channel", "Network", "Replay", "SessionLemmas"],
+        "rx": True,
+        "rule": "CLI sessions (generic SendCommand / GetPrompt / SendInteractive, network SendCommand with an implicit privilege change, AcquirePriv) "
+                "with the device going silent after byte k of the exchange: k from a dry run of the same case, every k of one small exchange "
+                "exhaustively plus random k; connection-wide 60 ms and per-operation 35 ms (over a 2 s connection-wide) timeouts; after the error the "
+                "device resumes and the next command runs (recovery clause, for stalls after the return was sent). The logged schedule (with the "
+                "observed deadline) is replayed by the model. Oracle: timeout (privilege for the implicit change) within [timeout, timeout+250 ms], "
+                "never success with a result other than the dry run's, next command's result = its own. NETCONF open/RPC timeouts are exercised "
+                "under C08/C09.",
+        "level_text": "Model: every read-until carries its deadline continuation (Channel.Until c k h); a Deadline event at a read-until yields the timeout "
+                      "error through every enclosing handler (so a failed implicit privilege change is a privilege error), and a finished operation "
+                      "consumes nothing more (SessionLemmas.failed_is_final, deadline_at_until: proved for all schedules). Tied to the code by "
+                      "replaying real stalled sessions incl. recovery.",
+        "level_note": "Partial: 'within timeout plus slack' is wall-clock; proved as 'fails at the deadline event, consumes nothing afterwards', measured "
+                      "on every case. Timeout precedence (get_timeout) and per-program timeout theorems: ChanTraceLemmas (when built).",
+    },
+    "C06": {
+        "n": {"quick": 220, "thorough": 6000},
+        "compare": "member",
+        "cone": ["Bytes", "Regex", "Generated", "Channel", "Network", "Replay", "SessionLemmas"],
+        "rx": True,
+        "rule": "the same CLI sessions with the transport reporting end-of-stream / a persistent read error after byte k, or failing a write; the "
+                "model prints every legal outcome of the race between the loss and the operation's consumption of already-queued chunks (the "
+                "implementation tests the error hand-off and the exited flag before the queue) and the implementation's outcome must be one of "
+                "them. Oracle: an error of connection/transport class promptly (< 600 ms with a 1.5 s timeout), never success with output other "
+                "than the dry run's, every later operation fails, the process survives (Close returns).",
+        "level_text": "Model: reader EOF/error states and the operation's read-until taking its error continuation (Channel.step Eof/Ioerr), with the "
+                      "same all-schedule lemmas as C05; tied to the code by replaying real sessions with injected losses (membership in the model's "
+                      "legal-outcome set).",
+        "level_note": "Partial: 'promptly' is wall-clock (measured); write failures are outside the operation language (oracle only); NETCONF error "
+                      "forwarding is covered by the C07 scenarios and C08 sessions. Theorem C06_no_panic for shutdown: see C07.",
     },
     "C08": {
         "n": {"quick": 200, "thorough": 5000},
